@@ -63,3 +63,15 @@ Fixpoint follow (href : string -> option (option string)) (limit : nat) (depth :
            | Some (Some nxt) => follow href l (S depth) nxt
            end
   end.
+
+(* the tidy loop at the end of topicosvg (while True: normalise, round, prune, remove groups; break when
+   no group was removed): abstractly, a step returns the new state and whether a group was removed *)
+Section TidyLoop.
+  Variable state : Type.
+  Variable step : state -> state * bool.
+  Fixpoint tidy (fuel : nat) (s : state) : option state :=
+    match fuel with
+    | O => None                                       (* would still be looping *)
+    | S f => let '(s', removed) := step s in if removed then tidy f s' else Some s'
+    end.
+End TidyLoop.
